@@ -2,20 +2,20 @@ SPECIFICATION HSpec
 CONSTANTS
   PercentExact = TRUE
   NewlineByWrites = TRUE
-  MoveUpAfterFirst = TRUE
-  FinishShowsStep = TRUE
+  MoveUpAfterFirst = FALSE
+  FinishDrawsNoMax = TRUE
   ClearCountsRows = TRUE
   MCModes <- AllModes
-  MCWidths <- W3
-  MCGaps <- Gaps2
-  MCFormats <- FmtAll
-  MCMax <- Max4
+  MCWidths <- W1
+  MCGaps <- GapOn
+  MCFormats <- FmtNormal
+  MCMax <- Max2
   Ticks <- TicksQ
-  StartArgs <- StartQ
+  StartArgs <- StartOne
   AdvArgs <- AdvQ
-  SetArgs <- SetQ
-  Msgs <- MsgsQ
-  Depth = 3
+  SetArgs <- SetTwo
+  Msgs <- NoMsgs
+  Depth = 4
 VIEW HView
 PROPERTY PFrameShape
 PROPERTY PBarWidth
@@ -24,9 +24,9 @@ PROPERTY PPercent
 PROPERTY PThrottle
 PROPERTY PMaxDraws
 PROPERTY PFinish
+PROPERTY PQuiet
+PROPERTY PPlainOps
 INVARIANT AnsiLine
 INVARIANT PlainOwnLine
-PROPERTY PQuiet
 INVARIANT TermOK
-PROPERTY PPlainOps
 INVARIANT Emit
